@@ -89,6 +89,32 @@ Proof.
     (repeat split; lia).
 Qed.
 
+Lemma tj_mcu_nonneg s : 0 <= tj_mcu_w s /\ 0 <= tj_mcu_h s.
+Proof.
+  unfold tj_mcu_w, tj_mcu_h.
+  destruct (Nat.lt_ge_cases (Z.to_nat s) (length tj_samp_mcu)) as [H|H].
+  - pose proof (nth_In tj_samp_mcu (0, 0) H) as Hin. destruct (nth (Z.to_nat s) tj_samp_mcu (0, 0)) as [a b].
+    cbn in Hin. repeat (destruct Hin as [Hin|Hin]; [injection Hin as <- <-; cbn; lia|]). contradiction.
+  - rewrite nth_overflow by exact H. cbn. lia.
+Qed.
+
+Lemma pad_nonneg v a : 0 <= v -> 0 <= a -> 0 <= pad_to v a.
+Proof.
+  intros Hv Ha. unfold pad_to. destruct (Z.eq_dec a 0) as [->|Hn]; [rewrite Z.mul_0_r; lia|].
+  assert (0 <= (v + a - 1) / a) by (apply Z.div_pos; lia). nia.
+Qed.
+
+Lemma tj_jpeg_buf_size_pos w h s : 0 <= w -> 0 <= h -> 0 < tj_jpeg_buf_size w h s.
+Proof.
+  intros Hw Hh. unfold tj_jpeg_buf_size. cbv zeta.
+  set (s' := if s =? -1 then 0 else s). destruct (tj_mcu_nonneg s') as [A B].
+  pose proof (pad_nonneg w _ Hw A). pose proof (pad_nonneg h _ Hh B).
+  assert (0 <= (if s' =? 3 then 0 else 4 * 64 / (tj_mcu_w s' * tj_mcu_h s'))).
+  { destruct (s' =? 3); [lia|]. destruct (Z.eq_dec (tj_mcu_w s' * tj_mcu_h s') 0) as [->|Hn]; [rewrite Zdiv_0_r; lia|].
+    apply Z.div_pos; nia. }
+  nia.
+Qed.
+
 (* THE SIZE STATEMENT: tj3Transform accepts => getTransformedSpecs accepts and assumes dimensions that
    are at least the real output dimensions (bounded layouts: the 1..4 factors JPEG allows) *)
 Theorem tj_bufsize_dims_sufficient im n t p :
@@ -110,29 +136,7 @@ Proof.
   fold (get_subsamp im) in Hdiv. unfold get_subsamp in Hdiv. fold (layout_of im) in Hdiv. rewrite <- Hi in Hdiv. cbn [fst snd] in Hdiv.
   fold (get_subsamp im) in Hdiv. change (get_subsamp_l (i_cs im) (layout_of im)) with (get_subsamp im) in Hdiv.
   set (d := get_dst_subsamp (get_subsamp im) (t_gray t) (t_op t)) in *.
-  assert (Hpos : forall w h s, 0 <= w -> 0 <= h -> 0 < tj_jpeg_buf_size w h s).
-  { intros w h s Hw Hh. unfold tj_jpeg_buf_size, pad_to. cbv zeta.
-    set (s' := if s =? -1 then 0 else s).
-    assert (0 <= (w + tj_mcu_w s' - 1) / tj_mcu_w s' * tj_mcu_w s') by
-      (destruct (Z_le_gt_dec (tj_mcu_w s') 0); [destruct (Z.eq_dec (tj_mcu_w s') 0) as [->|]; [rewrite Z.mul_0_r; lia|
-         pose proof (Z.mul_div_ge (w + tj_mcu_w s' - 1) (tj_mcu_w s') ltac:(lia)); nia]|
-         pose proof (Z.div_pos (w + tj_mcu_w s' - 1) (tj_mcu_w s') ltac:(lia) ltac:(lia)); nia]).
-    assert (0 <= (h + tj_mcu_h s' - 1) / tj_mcu_h s' * tj_mcu_h s') by
-      (destruct (Z_le_gt_dec (tj_mcu_h s') 0); [destruct (Z.eq_dec (tj_mcu_h s') 0) as [->|]; [rewrite Z.mul_0_r; lia|
-         pose proof (Z.mul_div_ge (h + tj_mcu_h s' - 1) (tj_mcu_h s') ltac:(lia)); nia]|
-         pose proof (Z.div_pos (h + tj_mcu_h s' - 1) (tj_mcu_h s') ltac:(lia) ltac:(lia)); nia]).
-    assert (0 <= (if s' =? 3 then 0 else 4 * 64 / (tj_mcu_w s' * tj_mcu_h s'))).
-    { destruct (s' =? 3); [lia|]. destruct (Z_le_gt_dec (tj_mcu_w s' * tj_mcu_h s') 0).
-      - destruct (Z.eq_dec (tj_mcu_w s' * tj_mcu_h s') 0) as [->|]; [rewrite Zdiv_0_r; lia|].
-        pose proof (Z.div_le_upper_bound 0 (tj_mcu_w s' * tj_mcu_h s') 0). 
-        assert (4 * 64 / (tj_mcu_w s' * tj_mcu_h s') <= 0 \/ 0 <= 4 * 64 / (tj_mcu_w s' * tj_mcu_h s')) by lia.
-        unfold tj_mcu_w, tj_mcu_h in *.
-        destruct (nth (Z.to_nat s') tj_samp_mcu (0, 0)) as [a b] eqn:E. cbn [fst snd] in *.
-        assert (In (a, b) ((0, 0) :: tj_samp_mcu)).
-        { destruct (Nat.lt_ge_cases (Z.to_nat s') (length tj_samp_mcu)); [right; rewrite <- E; apply nth_In; assumption|left; rewrite <- E; symmetry; apply nth_overflow; assumption]. }
-        cbn in H5. repeat (destruct H5 as [H5|H5]; [injection H5 as <- <-; try lia; vm_compute; discriminate|]). contradiction.
-      - apply Z.div_pos; lia. }
-    nia. }
+  pose proof tj_jpeg_buf_size_pos as Hpos.
   destruct (t_crop t) eqn:Hc.
   - pose proof (proj1 (tj_crop_alignment im n t p Hp Hc) Hpre) as (Hd & Ax & Ay). fold d in Hd.
     destruct (Z.eqb_spec d (-1)) as [|_]; [contradiction|]. cbn [orb] in Hdiv.
